@@ -10,3 +10,33 @@ BRIDGE = {
     "aioswitcher.bridge.DatagramParser.get_name":
         SpecContract("aioswitcher.bridge.DatagramParser.get_name", "ref_name", _msg, proved_by="C05/get_name_len*"),
 }
+
+
+def _days_cls(ip):
+    return ip.P.real["aioswitcher.schedule"].Days
+
+
+def _is_hex_even_ge8(ip, sargs, ctx):
+    m = sargs[0]
+    h = ip.call_function(ip.P.func("spec.is_hex"), [m], {}, ctx)
+    L = ip.builtins["len"].fn(ip, [m], {}, ctx)
+    import z3
+    from pyvc.sym import zb, zi
+    return z3.And(zb(ip.truth(h, ctx)), zi(L) % 2 == 0, zi(L) >= 8)
+
+
+T = "aioswitcher.device.tools."
+S = "aioswitcher.schedule.tools."
+TOOLS = {
+    T + "sign_packet_with_crc_key": SpecContract(T + "sign_packet_with_crc_key", "sign_spec", proved_by="C04/sign*"),
+    T + "set_message_length": SpecContract(T + "set_message_length", "set_length_spec", requires=_is_hex_even_ge8,
+                                           proved_by="C01/set_message_length"),
+    T + "minutes_to_hexadecimal_seconds": SpecContract(T + "minutes_to_hexadecimal_seconds", "minutes_spec", proved_by="C02/enc_minutes"),
+    T + "timedelta_to_hexadecimal_seconds": SpecContract(
+        T + "timedelta_to_hexadecimal_seconds", "auto_shutdown_spec",
+        lambda ip, a, k, ctx: [a[0].secs], proved_by="C02/enc_timedelta"),
+    T + "string_to_hexadecimale_device_name": SpecContract(T + "string_to_hexadecimale_device_name", "name_spec", proved_by="C02/enc_name_len*"),
+    S + "weekdays_to_hexadecimal": SpecContract(S + "weekdays_to_hexadecimal", "weekdays_encode_spec",
+                                                lambda ip, a, k, ctx: [a[0], _days_cls(ip)], proved_by="C12/enc_*"),
+    S + "time_to_hexadecimal_timestamp": SpecContract(S + "time_to_hexadecimal_timestamp", "time_encode_spec", proved_by="C11/encode"),
+}
